@@ -545,7 +545,7 @@ impl Property for C06 {
     fn families(&self, tier: Tier) -> Vec<Family> {
         let k = if tier == Tier::Quick { 1 } else { 20 };
         vec![
-            Family { name: "lib_errors", batches: 200 * k, batch_size: 30, tape_len: 60 },
+            Family { name: "lib_errors", batches: 120 * k, batch_size: 30, tape_len: 60 },
             Family { name: "core_errors", batches: 60 * k, batch_size: 30, tape_len: 12 },
             Family { name: "catchers", batches: 110 * k, batch_size: 1, tape_len: 12 },
         ]
